@@ -26,12 +26,12 @@ STR_GRID = {8: [0x61, 0x00, 0x7e], 16: [0x6261, 0x0061, 0xa9c3, 0x0000, 0x4100],
 
 
 # ---------------------------------------------------------------------------------------- part A: programs
-def gen_spec(r, w, signed):
-    """A specification from the grammar Format accepts for a value of this shape."""
+def gen_spec(r, w, signed, text=False):
+    """A specification from the grammar Format accepts for a value of this shape ('s' only for the concrete text operands)."""
     types = [None, "b", "o", "d", "x", "X"]
     if not signed:
         types.append("c")
-        if w in STR_GRID:
+        if w in STR_GRID and text:
             types += ["s", "s"]
     t = r.choice(types)
     out = ""
@@ -105,7 +105,7 @@ def inject(prog, r, n_events):
         for k in range(n):
             a = args[order[k]]
             w, sg = shape_of(a)
-            spec = gen_spec(r, w, sg)
+            spec = gen_spec(r, w, sg, text=(a[0] == "sig" and a[1] in ("t0", "t1")))
             text += r.choice(["", " ", "{{", "}}", " v=", "|"])
             idx = str(order[k]) if manual else ""
             text += "{" + idx + (":" + spec if spec else "") + "}"
@@ -187,10 +187,27 @@ def expected_text(st, env, reg):
     return fmt.format(*exps)
 
 
-def templates_differ(got, exp_text, reg):
+def _fold(seq, const_of):
+    """Replace holes whose value is the same constant in every state by the text Python gives for it; merge literals."""
+    out = []
+    for x in seq:
+        if not isinstance(x, str):
+            c = const_of(x[0])
+            if c is not None:
+                x = format(c, x[1])
+        if isinstance(x, str) and out and isinstance(out[-1], str):
+            out[-1] += x
+        else:
+            out.append(x)
+    return out
+
+
+def templates_differ(got, exp_text, reg, const_of=None):
     """None if structurally different (caller decides), else list of z3 terms 'value differs'."""
     exp = split_template(exp_text, _EXP, lambda n: reg[n])
     # normalise: adjacent literals are already merged by construction
+    if (len(got) != len(exp) or any(isinstance(g, str) != isinstance(e, str) for g, e in zip(got, exp))) and const_of is not None:
+        got, exp = _fold(got, const_of), _fold(exp, const_of)
     if len(got) != len(exp):
         return None
     diffs = []
@@ -284,11 +301,27 @@ def check_program(job):
                     r.update(status=ERROR, detail=f"exception on path: {type(p.exc).__name__}: {p.exc}")
                 break
             env0, rst, effects, quiet, events = p.value
+
+            def const_of(v, p=p):
+                """The single value v takes in every state of this path, or None."""
+                if not is_sym(v):
+                    return v
+                so = z3.Solver()
+                for c in list(assumptions) + list(p.pc):
+                    so.add(c)
+                if timed_check(so) != z3.sat:
+                    return None
+                c0 = eval_in_model(so.model(), v)
+                ne = (v != c0)
+                if ne is False:
+                    return c0
+                so.add(bool_term(ne))
+                return c0 if timed_check(so) == z3.unsat else None
             bad = {"print": [], "assert": []}      # z3 terms: "something is wrong"
             hard = {"print": [], "assert": []}     # structural mismatches (descriptions)
             for kind_, g in quiet:
                 if g is not False:
-                    bad["print" if kind_ == "print" else "assert"].append(z3.BoolVal(True) if g is True else bool_term(g))
+                    bad["print" if kind_ == "print" else "assert"].append((z3.BoolVal(True) if g is True else bool_term(g), "emission outside an active edge"))
             by_tag = {}
             for e in effects:
                 if e.kind == "print":
@@ -330,25 +363,25 @@ def check_program(job):
                         want_pre = "Assertion violated: " if st[0] == "assert" else "Assumption violated: "
                         if e.pre != want_pre:
                             hard[which].append(f"{st[0]} <{t}> reports {e.pre!r}")
-                    d = templates_differ(got_template(msg), exp_text, reg)
+                    d = templates_differ(got_template(msg), exp_text, reg, const_of)
                     if d is None:
                         if g is not False:
                             gt = z3.BoolVal(True) if g is True else bool_term(g)
-                            bad[which].append(gt)     # wrong text whenever it is emitted
+                            bad[which].append((gt, f"<{t}> text template differs: got {got_template(msg)!r}, expected {exp_text!r}"))     # wrong text whenever it is emitted
                     else:
                         for x in d:
-                            bad[which].append(z3.And(bool_term(g), x) if g is not True else x)
+                            bad[which].append((z3.And(bool_term(g), x) if g is not True else x, f"<{t}> operand value differs"))
                 ne = (count != sym_ite(cond, 1, 0))
                 if ne is True:
-                    bad[which].append(z3.BoolVal(True))
+                    bad[which].append((z3.BoolVal(True), f"<{t}> emitted {len(emitted)} times"))
                 elif ne is not False:
-                    bad[which].append(bool_term(ne))
+                    bad[which].append((bool_term(ne), f"<{t}> emission count differs from activity"))
             for t, lst in by_tag.items():
                 if t not in seen:
                     for e, msg in lst:
                         which = "print" if e.kind == "print" else "assert"
                         if e.guard is not False:
-                            bad[which].append(z3.BoolVal(True) if e.guard is True else bool_term(e.guard))
+                            bad[which].append((z3.BoolVal(True) if e.guard is True else bool_term(e.guard), f"<{t}> emitted but not expected at all"))
             for which in ("print", "assert"):
                 r = results[which]
                 if r["status"] != PROVED:
@@ -356,7 +389,7 @@ def check_program(job):
                 if hard[which]:
                     conds = [z3.BoolVal(True)]
                 elif bad[which]:
-                    conds = bad[which]
+                    conds = [c_ for c_, _ in bad[which]]
                 else:
                     continue
                 s = z3.Solver()
@@ -381,7 +414,8 @@ def check_program(job):
                                  + (f" [{hard[which][0]}]" if hard[which] else ""),
                                  signature={"kind": which}, replay={"prog": prog, "state": e0, "rst": rv})
                     else:
-                        r.update(status=UNREPRODUCED, detail=f"symbolic disagreement did not reproduce for {e0} rst={rv}: {hard[which][:1]}")
+                        lab = [l_ for c_, l_ in bad[which] if z3.is_true(mdl.eval(c_, model_completion=True))]
+                        r.update(status=UNREPRODUCED, detail=f"symbolic disagreement did not reproduce for {e0} rst={rv}: {hard[which][:1]} {lab[:2]}")
     out = list(results.values())
     # translator validation: the whole pipeline on concrete random states, text against text
     rr = random.Random(job.get("vseed", 0))
